@@ -497,7 +497,7 @@ pub fn run(ctx: &Ctx, evidence: Option<&PathBuf>) -> i32 {
             c.l.sample(Json::obj().with("mutations", kinds.iter().map(|k| Json::from(*k)).collect::<Vec<_>>()).with("buffer_size", buffer).with("input_len", bytes.len()).with("input_head_hex", hex_cap(&bytes, 64)));
         }
     };
-    ctx.run_fixed("mutated-directed", 300, mutated);
+    ctx.run_fixed("mutated-directed", ctx.dn(300), mutated);
     ctx.run_cases("mutated", n, mutated);
     ctx.run_cases("random-bytes", ctx.size(3_000, 300_000), |c| {
         let mut bytes = c.rng.rbytes(400);
